@@ -337,6 +337,12 @@ def node_src(node, fresh=False):
         s = 'Em()'
     else:
         raise ValueError(k)
+    dsc = node.get('desc')
+    if dsc:
+        if dsc['k'] == 'autolength':
+            s += ".describe(AutoLength(%r))" % dsc['of']
+        else:
+            raise ValueError(dsc)
     p = node.get('pos')
     if p:
         if k == 'ref' and node['how'] == 'bare':
@@ -457,6 +463,16 @@ def construct(mod, P, pv, how='kw'):
     if how == 'kw':
         return cls(**{k: conv(v) for k, v in pv.vals.items()})
     obj = cls()
+    if how == 'inplace':
+        # default construction, then the lists the packet was born with are filled IN PLACE
+        for k, v in pv.vals.items():
+            cur = getattr(obj, k)
+            if isinstance(v, list) and isinstance(cur, list):
+                del cur[:]
+                cur.extend(conv(v))
+            else:
+                setattr(obj, k, conv(v))
+        return obj
     for k, v in pv.vals.items():
         setattr(obj, k, conv(v))
     return obj
